@@ -134,6 +134,8 @@ pub struct Plan {
     pub fail_after_items: usize,
     /// call `finish()` result propagation: true = `?` on finish (the documented usage)
     pub propagate_finish: bool,
+    /// convert the first pulled (required) token to u8 and propagate the conversion error
+    pub typed_u8: bool,
 }
 
 impl Plan {
@@ -145,6 +147,7 @@ impl Plan {
         fail: None,
         fail_after_items: usize::MAX,
         propagate_finish: true,
+        typed_u8: false,
     };
     pub const fn pull(req: u8, opt: u8) -> Plan {
         Plan {
@@ -533,6 +536,9 @@ impl H {
                 dev.log_overflow = true;
             }
             let t = r?;
+            if plan.typed_u8 {
+                let _v: u8 = u8::try_from(t)?;
+            }
             if plan.convert {
                 let (_, internal, _) = convert_all(t, &mut runaway);
                 dev.internal_error |= internal;
@@ -840,4 +846,19 @@ pub fn run_vec(tree: &Node<'static, RigDev>, dev: &mut RigDev, msg: &[u8], out: 
 
 pub fn err_code(e: ErrorCode) -> i16 {
     e.get_code()
+}
+
+/// A built tree that can be shared between sweep threads. Sound because every handler in a rig
+/// tree is a stateless `H(id)` living in a `static`; all mutable state is in the per-thread `RigDev`.
+#[derive(Clone, Copy)]
+pub struct SharedTree(pub &'static Node<'static, RigDev>);
+unsafe impl Sync for SharedTree {}
+unsafe impl Send for SharedTree {}
+impl SharedTree {
+    pub fn of(spec: &TreeSpec) -> SharedTree {
+        SharedTree(spec.build())
+    }
+    pub fn node(&self) -> &'static Node<'static, RigDev> {
+        self.0
+    }
 }
